@@ -61,6 +61,11 @@ def legal_indices(op):
     if k == "words":
         return list(itertools.product(range(1, op[1] + 1), repeat=op[2]))
     if k in ("bip", "smap"):
+        if len(op) > 4 and op[4] == "user-class-own-order":
+            # identifiers follow the left vertex, then the order in which the graph lists its neighbours
+            from ..ducks import listed
+            E = {(u, v) for u, v in op[3]}
+            return [(u, v) for u in range(1, op[1] + 1) for v in listed([b for (a, b) in E if a == u], u, "preference")]
         return sorted({(u, v) for u, v in op[3]})
     if k in ("bipc", "map"):
         return [(u, v) for u in range(1, op[1] + 1) for v in range(1, op[2] + 1)]
